@@ -193,7 +193,7 @@ pub fn c02(t: &Trace, r: &mut Report) {
             valid = false;
             continue;
         }
-        if !matches!(op[0], "tick" | "gate_on" | "gate_off" | "set" | "setacc") {
+        if !matches!(op[0], "tick" | "ticks" | "gate_on" | "gate_off" | "set" | "setacc") {
             continue;
         }
         let o = match parse(&t.obs[i]) {
@@ -246,6 +246,67 @@ pub fn c02(t: &Trace, r: &mut Report) {
                 }
             }
             "setacc" => valid = false,
+            "ticks" => {
+                // a run of k ticks without any other call in between, ending with the tick on which the phase changed
+                // (or after the requested number): the same duration rule, applied to the whole run at once
+                let k = t.obs[i].get(10).map(|x| num(x)).unwrap_or(0);
+                r.eval();
+                let ok = match p.st {
+                    1 => matches!(o.st, 1 | 2),
+                    2 => matches!(o.st, 2 | 3),
+                    3 => o.st == 3,
+                    4 => matches!(o.st, 4 | 0),
+                    _ => o.st == 0,
+                };
+                if !ok {
+                    r.fail(i, start, "transition", format!("ticks moved state {} -> {}", p.st, o.st));
+                }
+                if matches!(p.st, 1 | 2 | 4) && k > 0 {
+                    let tsec = match p.st {
+                        1 => o.a,
+                        2 => o.d,
+                        _ => o.r,
+                    } as f64;
+                    let n = (tsec * sr).max(1e-9);
+                    ticks += k;
+                    sum += k as f64 / n;
+                    r.nt(h2(p.st, h2((n.log2() * 4.0) as u64, 65)));
+                    if valid {
+                        let late_limit = (1.0 + (ticks - 1) as f64 / P24) * (1.0 + 1e-6) + 1e-9;
+                        if o.st != p.st {
+                            if r.samples.len() < 3 {
+                                r.samples.push(format!("line {}: phase {} of {:.3} ticks ended after {} ticks", i, p.st, n, ticks));
+                            }
+                            if sum < 1.0 - 1e-6 {
+                                r.fail_d(
+                                    i,
+                                    start,
+                                    "early",
+                                    format!("phase {} ended after {} ticks, only {:.6} of its duration", p.st, ticks, sum),
+                                    vec![("ticks".into(), ticks as f64), ("covered".into(), sum)],
+                                );
+                            }
+                            if sum - 1.0 / n > late_limit {
+                                r.fail(i, start, "late", format!("phase {} ended after {} ticks, {:.6} of its duration", p.st, ticks, sum - 1.0 / n));
+                            }
+                        } else if sum > late_limit + 2.0 / n.max(1.0) {
+                            r.fail_d(
+                                i,
+                                start,
+                                "overdue",
+                                format!("phase {} still running after {} ticks = {:.6} of its duration", p.st, ticks, sum),
+                                vec![("ticks".into(), ticks as f64), ("covered".into(), sum)],
+                            );
+                            valid = false;
+                        }
+                    }
+                    if o.st != p.st {
+                        ticks = 0;
+                        sum = 0.0;
+                        valid = true;
+                    }
+                }
+            }
             "tick" => {
                 let ok = match p.st {
                     1 => matches!(o.st, 1 | 2),
